@@ -307,7 +307,7 @@ pub fn part_dap_args(tier: Tier) -> Part {
     use serde_json::{Value, json};
     use std::time::Duration;
     let mut part = Part::new("c08_dap_arguments");
-    part.rule = "through the real DAP adapter, stopped at a breakpoint: ~400 requests for 22 stop-time commands (stackTrace, scopes, variables, setVariable, evaluate, setExpression, completions, readMemory, writeMemory, disassemble, dataBreakpointInfo, setDataBreakpoints, breakpointLocations, gotoTargets, goto, restartFrame, stepInTargets, exceptionInfo, source, modules, loadedSources, terminateThreads) with missing, ill-typed, negative, zero, huge (2^31, 2^53, 2^63) and dangling arguments; each request gets exactly one response, the adapter stays alive (a final `threads` is answered), nothing takes longer than 10 s, the text of the debuggee is unchanged and the program continues to its normal end".into();
+    part.rule = "through the real DAP adapter, stopped at a breakpoint: ~530 requests for 22 stop-time commands (stackTrace, scopes, variables, setVariable, evaluate, setExpression, completions, readMemory, writeMemory, disassemble, dataBreakpointInfo, setDataBreakpoints, breakpointLocations, gotoTargets, goto, restartFrame, stepInTargets, exceptionInfo, source, modules, loadedSources, terminateThreads) with missing, ill-typed, negative, zero, huge (2^31, 2^53, 2^63) and dangling arguments; each request gets exactly one response, the adapter stays alive (a final `threads` is answered), nothing takes longer than 10 s, the text of the debuggee is unchanged and the program continues to its normal end".into();
     let prog = crate::corpus::generate_custom("p_dapdata", crate::c15d::FN_TEXT, "    a = a.wrapping_add(dv(a));");
     let built = match crate::corpus::build(&prog, &crate::corpus::Config::default_cfg()) {
         Ok(b) => b,
@@ -390,6 +390,15 @@ pub fn part_dap_args(tier: Tier) -> Part {
             reqs.push(("setDataBreakpoints", json!({"breakpoints": [{"dataId": s, "accessType": "write"}]})));
             reqs.push(("breakpointLocations", json!({"source": {"path": s}, "line": 1})));
             reqs.push(("source", json!({"source": {"path": s}, "sourceReference": 0})));
+        }
+        // positions inside a text: every column around the ends of ASCII and non-ASCII texts
+        // (characters and bytes differ in the second kind), and lines
+        for text in ["", "v", "v_u8", "v_u8.", "h\u{e9}llo", "\u{2713}", "v_\u{e9}\u{2713}x", "a\tb"] {
+            for col in [-1i64, 0, 1, 2, 3, 4, 5, 6, 7, 8, 9, 12, 1 << 31, i64::MAX] {
+                reqs.push(("completions", json!({"text": text, "column": col})));
+            }
+            reqs.push(("completions", json!({"text": text, "column": 2, "line": 0})));
+            reqs.push(("completions", json!({"text": text, "column": 2, "line": i64::MAX})));
         }
         reqs.push(("setDataBreakpoints", json!({"breakpoints": []})));
         reqs.push(("loadedSources", json!({})));
